@@ -655,6 +655,9 @@ func (s *PersistentHybridIndex) Flush() error {
 	}
 	s.mu.RUnlock()
 
+	// Flush is a durability point: the writable memtable must be persisted too
+	s.memtableQueue.rotateIfNonEmpty()
+
 	return s.flushMemtables()
 }
 
@@ -854,6 +857,9 @@ func (s *PersistentHybridIndex) Close() error {
 	}
 	s.closed = true
 	s.mu.Unlock()
+
+	// Freeze the writable memtable so that the flush worker's final flush persists it
+	s.memtableQueue.rotateIfNonEmpty()
 
 	// Signal background workers to stop
 	close(s.closeChan)
